@@ -15,7 +15,7 @@ shutil.copy(f"{src}/demo{N}.rs", f"{dst}/demo.rs")
 if os.path.exists(f"{src}/README.md"):
     shutil.copy(f"{src}/README.md", f"{dst}/AGENT_README.md")
 json.dump({"property": ID, "needs_to_manifest": needs,
-           "author": "sub-agent given only the property text and a private worktree of /repo" + (" (second round: asked for changes away from the obvious anchor)" if os.environ.get("NAMEPFX") else ""),
+           "author": "sub-agent given only the property text and a private worktree of /repo" + (" (later round: asked for changes away from the obvious anchor)" if os.environ.get("NAMEPFX") else ""),
            "confirmed_by": "tools-side re-run in the scratch worktree (/tmp/mut/confirm.sh): git apply; cargo build --offline --features verif_hooks; cargo test --offline --workspace (existing suite); cargo test --test demo with and without the change",
            "confirmation": c}, open(f"{dst}/meta.json", "w"), indent=1)
 print("imported", dst)
